@@ -253,7 +253,11 @@ theorem C16_decl_step (s : BState) (c : Call) : Grows s (step s c) := by
   case procEdgeBegin a b c =>
     simp only [step]
     cases s.resolveEndpoint a <;> cases s.resolveEndpoint b <;> cases s.currentTemplate <;> exact Grows.of_eq rfl rfl rfl
-  case procSelect n => simp only [step]; exact grows_addSelectSymbol _ _ _
+  case procSelect n =>
+    simp only [step]
+    cases s.currentEdge with
+    | none => exact Grows.of_eq rfl rfl rfl
+    | some p => exact grows_addSelectSymbol _ _ _
   case ganttSelect n => simp only [step]; exact grows_addSelectSymbol _ _ _
   case procGuard => simp only [step]; exact grows_setEdge _ _
   case procUpdate => simp only [step]; exact grows_setEdge _ _
